@@ -177,7 +177,15 @@ func JudgeC15(c *Ctx, h *History, obs []*Obs) ([]Violation, error) {
 				break
 			}
 			if f.Name.Name != pkgOf[p].PkgName {
-				add("package-clause", fmt.Sprintf("%s has `package %s`, model (output:package / existing package / normalised directory) says `package %s`", p, f.Name.Name, pkgOf[p].PkgName))
+				cls := "package-clause"
+				for _, cv := range pred[p] {
+					if g.Cwd == "symlink" && strings.HasPrefix(cv.OutFile, RootPlaceholder) {
+						// known finding F11: the absolute output:file is spelled through another
+						// path (the link target) than the working directory (the link)
+						cls = "package-clause/absolute-output-file-spelled-through-other-path-than-cwd"
+					}
+				}
+				add(cls, fmt.Sprintf("%s has `package %s`, model (output:package / existing package / normalised directory) says `package %s`", p, f.Name.Name, pkgOf[p].PkgName))
 				break
 			}
 			for _, cv := range pred[p] {
@@ -304,7 +312,7 @@ func CheckC15(c *Ctx) (*Outcome, error) {
 		nLayouts, nHist = 4000, 800
 	}
 	note := c.noteObs("c15aux")
-	opts := LayoutOpts{CustomTags: true, Absolute: true, Guarded: true, UserPkgs: true, GuardedUser: true, GlobalOutFile: true}
+	opts := LayoutOpts{CustomTags: true, Absolute: true, Guarded: true, UserPkgs: true, GuardedUser: true, GlobalOutFile: true, Symlinks: true}
 	onObs := func(h *History, obs []*Obs) {
 		note(h, obs)
 		for _, o := range obs {
